@@ -582,6 +582,8 @@ class IntervalKind(AbsInt):
             x, lo, hi = (self.value(z, fr) for z in a)
             if all(isinstance(z, IV) for z in (x, lo, hi)):
                 return minimum(maximum(x, lo), hi)
+            if isinstance(x, Tup) and all(isinstance(e, IV) for e in x.elems) and isinstance(lo, IV) and isinstance(hi, IV):
+                return Tup([minimum(maximum(e, lo), hi) for e in x.elems], x.kind)      # a two-column batch clipped element-wise
         if name in ('numpy.logical_and', 'numpy.logical_or') and len(a) == 2:
             fake = ast.BoolOp(op=ast.And() if name.endswith('and') else ast.Or(), values=list(a))
             return self.boolop(fake, [self.value(z, fr) for z in a], fr)
